@@ -9,6 +9,8 @@
   the `max_layers` clamp);
 * the commit rule of `commit_flush_snapshot` (dirty marks of the snapshot cleared only under the guard
   `stats.version == snapshot.version`, the dirty set untouched elsewhere);
+* the purge rule of `purge_removed_nodes` (the node map is consulted and a live id skipped before the deletion
+  callback can run);
 * three shape facts of the search: `search_attempt` truncates to `top_k`, `search_layer` marks a
   neighbour visited before it looks it up, and returns `into_sorted_vec()`.
 """
@@ -205,6 +207,47 @@ for gm in re.finditer(r"\bif\s+([^{}]*?)(==|!=)([^{}]*?)\{", cb):
     commit_guarded = commit_clears_snapshot_ids and not touches(outside) and not touches(other)
     break
 
+# ---- purge_removed_nodes: the deletion callback is reached only after the NODE MAP was consulted for that id
+#      (`contains_key`), and a live id is skipped (`continue`) — the tombstone set alone never decides a deletion
+def mask_inlined(text):
+    """the inlined text with every `{ /*helper*/ … }` region blanked (same length): what the function does ITSELF"""
+    out, i = list(text), 0
+    for m in re.finditer(r"\{\s*/\*\w+\*/", text):
+        if m.start() < i:
+            continue
+        depth, j = 0, m.start()
+        while j < len(text):
+            if text[j] == "{":
+                depth += 1
+            elif text[j] == "}":
+                depth -= 1
+                if depth == 0:
+                    break
+            j += 1
+        for k in range(m.start(), min(j + 1, len(text))):
+            if out[k] != "\n":
+                out[k] = " "
+        i = j + 1
+    return "".join(out)
+
+
+pb = inlined_body(src, "purge_removed_nodes")
+pcb = [n for n, t in params(signature(src, "purge_removed_nodes")) if re.fullmatch(r"[A-Z]\w*", t)]
+if len(pcb) != 1:
+    die(f"{ME}: purge_removed_nodes is expected to take exactly one callback parameter, found {pcb}")
+# the callback as the function itself invokes it (an inlined helper's own `f(` is not it); if the invocation was
+# moved into a helper, look at the fully inlined text
+p_call = first_pos(mask_inlined(pb), [rf"(?<![\w.:]){pcb[0]}\s*\("])
+if p_call < 0:
+    p_call = first_pos(pb, [rf"(?<![\w.:]){pcb[0]}\s*\("])
+if p_call < 0:
+    die(f"{ME}: purge_removed_nodes never invokes its callback")
+before = pb[:p_call]
+p_chk = first_pos(before, [r"\bnodes\b[^;{}]*\.\s*contains_key\s*\(", r"\.\s*contains_key\s*\("])
+purge_consults = p_chk >= 0 and bool(re.search(r"\bcontinue\b", before[p_chk:]))
+# … and the tombstones it walks are the index's own removed set
+purge_walks_tombstones = bool(re.search(r"removed_nodes", before))
+
 # ---- the collection wrapper
 wsrc = cut_tests(strip_rust_comments(read_source(repo, "rs/anda_db/src/index/hnsw.rs")))
 wf = inlined_body(wsrc, "flush")
@@ -244,6 +287,10 @@ def commitClearsSnapshotIds : Bool := {"true" if commit_clears_snapshot_ids else
 /-- … inside the guard `stats.version == snapshot.version`, and touches the dirty set nowhere else -/
 def commitClearsOnlyIfVersionUnchanged : Bool := {"true" if commit_guarded else "false"}
 
+/-- `purge_removed_nodes` consults the node map (`contains_key`) for each tombstone and skips (`continue`) a live id
+before its deletion callback can run -/
+def purgeConsultsNodeMap : Bool := {"true" if purge_consults and purge_walks_tombstones else "false"}
+
 /-- `search_attempt` ends with `results.truncate(top_k)` -/
 def attemptTruncates : Bool := {"true" if truncates else "false"}
 /-- `search_layer` tests `visited.insert(neighbor)` before `nodes.get(&neighbor)` -/
@@ -256,6 +303,7 @@ theorem gen_flush_order_writer : flushOrderWriter = [0, 1, 2, 3] := by decide
 theorem gen_wrapper_order : wrapperOrder = [0, 1] := by decide
 theorem gen_create_order : createOrder = [1, 2] := by decide
 theorem gen_commit_rule : commitClearsSnapshotIds = true ∧ commitClearsOnlyIfVersionUnchanged = true := by decide
+theorem gen_purge_rule : purgeConsultsNodeMap = true := by decide
 theorem gen_attempts_pos : 0 < searchMaxAttempts := by decide
 theorem gen_layers_clamp : 0 < minMaxLayers ∧ minMaxLayers ≤ maxMaxLayers := by decide
 theorem gen_search_shape : attemptTruncates = true ∧ visitedBeforeLookup = true ∧ sortedOutput = true := by decide
